@@ -1129,6 +1129,10 @@ class Ctx:
             if isinstance(oa, MObj):
                 return self.truth(self.call(self.getattr1(oa, '__contains__'), [ka], {}))     # user-defined __contains__
             return ka in oa
+        if any(isinstance(oa, MObj) and not hasattr(oa, 'base') for _, oa in alts_of(o)):
+            # user code runs: evaluate every pair of alternatives under its own guard
+            r = self.call_each(o, lambda oa: self.call_each(k, lambda ka: mk_bool(one(oa, ka))))
+            return self.truth(r)
         return fold_b(o, lambda oa: fold_b(k, lambda ka: one(oa, ka)))
 
     def eq(self, a, b):
@@ -1247,7 +1251,7 @@ class Ctx:
 
     def ex_Attribute(self, e):
         o = self.live(self.ev(e.value))
-        return fold(o, lambda oa: self.getattr1(oa, e.attr))
+        return self.call_each(o, lambda oa: self.getattr1(oa, e.attr))
 
     def getattr1(self, o, name):
         if isinstance(o, MObj):
@@ -1458,7 +1462,9 @@ class Ctx:
         if isinstance(a, SChoice) or isinstance(b, SChoice):
             if all(isinstance(x, (MSet, KeysView)) for _, x in alts_of(a) + alts_of(b)):
                 return self.set_binop(op, self.flatten_set(a), self.flatten_set(b))
-            return fold(a, lambda va: fold(b, lambda vb: self.binop(op, va, vb)))
+            # operands are guarded unions: the operation (which may run code and raise) is evaluated once per pair of
+            # alternatives UNDER THAT PAIR'S GUARD, so that exceptions are attributed to the right inputs
+            return self.call_each(a, lambda va: self.call_each(b, lambda vb: self.binop(op, va, vb)))
         dunder = {ast.BitOr: ('__or__', '__ror__'), ast.BitAnd: ('__and__', '__rand__')}.get(type(op))
         if dunder and isinstance(a, MObj):
             return self.call(self.getattr1(a, dunder[0]), [b], {})
